@@ -157,7 +157,8 @@ for directed in (False, True):
                                  and v in (None, 1)) or (ids == (0, 2, 3) and strnodes and not directed and v is None and w == (None, None)) \
                             or (directed and ids == (0, 1) and not strnodes and v in (None, 1) and w in ((None, None), (1, 1))) \
                             or (directed and ids == (0, 1, 2) and N == 3 and not strnodes and v is None and w == (None, None) and part == 0)
-                        keep = quick or (not directed and N == 3 and v in (None, 1)) \
+                        keep = quick or (not directed and N == 3 and v in (None, 1) and (not strnodes or ids == (0, 2, 3))
+                                         and (len(ids) < 4 or w == (None, None))) \
                             or (not directed and N == 4 and not strnodes and w == (None, None) and v is None) \
                             or (directed and ids == (0, 1, 2) and N == 3 and not strnodes and w == (None, None) and v is None) \
                             or (directed and ids == (0, 1))
@@ -281,3 +282,6 @@ for _N, _ids, _pl in ((3, [0, 1, 2, 3], 1), (4, [0, 1], 1), (3, [1, 3, 4, 6], 1)
                 what="as eager_u_int on a larger universe")
 
 h_c12._register_eager()
+# the 5-id universe (16 partitions) is run under C12 only (soundness and completeness are checked together there)
+for _n in [n for n in REG.conds if "ids01234" in n]:
+    del REG.conds[_n]
